@@ -1,6 +1,6 @@
 #!/usr/bin/env python3
 """writes MANIFEST.json from specs/registry.py"""
-import json, os, sys
+import json, subprocess, sys, os, sys
 sys.path.insert(0, os.path.dirname(os.path.abspath(__file__)))
 from specs import registry
 checks = []
@@ -30,3 +30,10 @@ m = dict(
 )
 json.dump(m, open(os.path.join(os.path.dirname(os.path.abspath(__file__)), 'MANIFEST.json'), 'w'), indent=1)
 print('MANIFEST.json: %d checks, %d not_applicable' % (len(checks), len(m['not_applicable'])))
+
+# self-check against the schema (tooling venv has jsonschema); a failure here must never leave an invalid MANIFEST.json behind unnoticed
+import subprocess as _sp
+_r = _sp.run(['python3-vt', '-c', "import json, jsonschema; jsonschema.validate(json.load(open('/verif/MANIFEST.json')), json.load(open('/root/.vp/MANIFEST.schema.json'))); print('MANIFEST.json validates against the schema')"], stdout=_sp.PIPE, stderr=_sp.STDOUT, text=True)
+print(_r.stdout.strip()[-400:])
+if _r.returncode != 0:
+    raise SystemExit('MANIFEST.json does NOT validate')
